@@ -11,11 +11,20 @@ Inductive rstep :=
 | TBase (o : op) (x : out)
 | TStream (ch off ep : N) (reject : bool)
           (filt : list N)        (* ids excluded by the subscription's server/client tags filters *)
+          (race : list (N * popts)) (race_out : list out)
+                                 (* publications made right after the subscribe's history read
+                                    (from a Broker.History hook), and their observed results *)
           (full : out)           (* full broker-level read taken just before the subscribe *)
           (res : sres)           (* the subscribe reply *)
 | TCache (ch off ep : N) (use_filters : bool) (filt : list N) (hnd : chandler)
+         (race : list (N * popts)) (race_out : list out)
+         (hnd_out : list out)    (* observed results of the handler's publications (empty if it did not run) *)
          (full full2 : out)      (* full reads before / after the subscribe *)
-         (res : sres).
+         (res : sres)
+| TPair (ch off ep_l ep_f : N) (filt : list N) (full : out) (res_l res_f : sres).
+         (* two overlapping stream recoveries from the same offset (single flight on): the
+            leader (epoch ep_l) is held inside Broker.History until the follower (ep_f,
+            a different epoch string) has finished or joined *)
 
 Record case := mkCase {
   c_now : N; c_meta : N;
@@ -30,15 +39,21 @@ Fixpoint corr_run (lim : Z) (h : hub) (steps : list rstep) : bool :=
   match steps with
   | [] => true
   | TBase o x :: r => let '(h1, y) := step h o in out_eqb y x && corr_run lim h1 r
-  | TStream ch off ep reject fl full res :: r =>
+  | TStream ch off ep reject fl race _ full res :: r =>
       let '(h1, y) := hub_get h ch full_filter 0 in
-      let '(h2, z) := sub_stream lim (filt_of fl) h1 ch off ep reject 0 in
+      let '(h2, z) := sub_stream lim (filt_of fl) h1 ch off ep reject 0 race in
       out_eqb y full && sres_eqb z res && corr_run lim h2 r
-  | TCache ch off ep uf fl hnd full full2 res :: r =>
+  | TCache ch off ep uf fl hnd race _ _ full full2 res :: r =>
       let '(h1, y) := hub_get h ch full_filter 0 in
-      let '(h2, z) := sub_cache lim uf (filt_of fl) hnd h1 ch off ep 0 in
+      let '(h2, z) := sub_cache lim uf (filt_of fl) hnd h1 ch off ep 0 race in
       let '(h3, y2) := hub_get h2 ch full_filter 0 in
       out_eqb y full && sres_eqb z res && out_eqb y2 full2 && corr_run lim h3 r
+  | TPair ch off ep_l ep_f fl full res_l res_f :: r =>
+      (* different epoch strings = different single-flight keys: the follower reads first *)
+      let '(h1, y) := hub_get h ch full_filter 0 in
+      let '(h2, zf) := sub_stream lim (filt_of fl) h1 ch off ep_f false 0 [] in
+      let '(h3, zl) := sub_stream lim (filt_of fl) h2 ch off ep_l false 0 [] in
+      out_eqb y full && sres_eqb zf res_f && sres_eqb zl res_l && corr_run lim h3 r
   end.
 
 Definition corr (c : case) : bool :=
@@ -64,12 +79,24 @@ Definition truncated (lim : Z) (items : list item) (off : N) : bool :=
 Definition expected_pubs (fl : list N) (items : list item) (off : N) : list item :=
   filter (fun it => (off <? i_off it) && negb (memN (i_id it) fl)) items.
 
-Definition stream_ok (lim : Z) (off ep : N) (reject : bool) (fl : list N) (full : out) (res : sres) : bool :=
+(* the visible publications that were stored while the subscribe ran *)
+Fixpoint race_items (fl : list N) (race : list (N * popts)) (outs : list out) : list item :=
+  match race, outs with
+  | (id, _) :: r, OPub off _ 0 _ :: os =>
+      (if memN id fl then [] else [mkItem off id]) ++ race_items fl r os
+  | _ :: r, _ :: os => race_items fl r os
+  | _, _ => []
+  end.
+
+(* [extra] = visible publications that arrived during the subscribe: a recovered
+   reply continues with them; a refused one carries nothing *)
+Definition stream_ok (lim : Z) (off ep : N) (reject : bool) (fl : list N) (extra : list item)
+           (full : out) (res : sres) : bool :=
   match full with
   | OHist items top epc =>
       let bad := missing items off top || (negb (ep =? 0) && negb (ep =? epc)) || truncated lim items off in
       match res with
-      | ROk true pubs _ _ => negb bad && list_eqb item_eqb pubs (expected_pubs fl items off)
+      | ROk true pubs _ _ => negb bad && list_eqb item_eqb pubs (expected_pubs fl items off ++ extra)
       | ROk false pubs _ _ => match pubs with [] => true | _ => false end
       | RErr code => reject && (code =? ErrUnrecoverablePosition)
       end
@@ -78,25 +105,28 @@ Definition stream_ok (lim : Z) (off ep : N) (reject : bool) (fl : list N) (full 
 
 Definition step_ok (lim : Z) (s : rstep) : bool :=
   match s with
-  | TStream ch off ep reject fl full res => stream_ok lim off ep reject fl full res
+  | TStream ch off ep reject fl race race_out full res =>
+      stream_ok lim off ep reject fl (race_items fl race race_out) full res
+  | TPair ch off ep_l ep_f fl full res_l res_f =>
+      stream_ok lim off ep_l false fl [] full res_l && stream_ok lim off ep_f false fl [] full res_f
   | _ => true
   end.
 
 Definition oracle (c : case) : bool := forallb (step_ok (c_lim c)) (c_steps c).
 
 (* the same, as a proposition *)
-Definition StreamProp (lim : Z) (off ep : N) (reject : bool) (fl : list N) (full : out) (res : sres) : Prop :=
+Definition StreamProp (lim : Z) (off ep : N) (reject : bool) (fl : list N) (extra : list item) (full : out) (res : sres) : Prop :=
   exists items top epc, full = OHist items top epc /\
     match res with
     | ROk true pubs _ _ =>
         missing items off top = false /\ (ep = 0 \/ ep = epc) /\ truncated lim items off = false /\
-        pubs = expected_pubs fl items off
+        pubs = expected_pubs fl items off ++ extra
     | ROk false pubs _ _ => pubs = []
     | RErr code => reject = true /\ code = ErrUnrecoverablePosition
     end.
 
-Lemma stream_ok_sound : forall lim off ep reject fl full res,
-  stream_ok lim off ep reject fl full res = true <-> StreamProp lim off ep reject fl full res.
+Lemma stream_ok_sound : forall lim off ep reject fl extra full res,
+  stream_ok lim off ep reject fl extra full res = true <-> StreamProp lim off ep reject fl extra full res.
 Proof.
   intros. unfold stream_ok, StreamProp.
   destruct full as [| items top epc | |]; try (split; [discriminate|intros (i & t & e & X & _); discriminate]).
